@@ -466,9 +466,41 @@ func (a *cloneAnalysis) subject(g *objGroup) bool {
 	return false
 }
 
-func runCloneRules(r *Run, clones []cloneFn, rulePrefix string, wantAlias bool, subjectTypes map[*types.Named]bool) {
+// alias modes of runCloneRules
+const (
+	aliasOff     = 0 // coverage and purity only
+	aliasMutable = 1 // sharing is a violation when the library itself can later change the shared object
+	aliasStrict  = 2 // any sharing of pointer, slice or map values is a violation ("fully independent")
+)
+
+func runCloneRules(r *Run, clones []cloneFn, rulePrefix string, aliasMode int, subjectTypes map[*types.Named]bool) {
 	p := r.P
 	ms := newMutSummary(p, false)
+	wantAlias := aliasMode != aliasOff
+	var oracle *mutOracle
+	if aliasMode == aliasMutable {
+		oracle = newMutOracle(p, newMutSummary(p, false))
+	}
+	// aliasBad: is sharing a value of type vt, held in field fv (may be nil), a violation?
+	aliasBad := func(fv *types.Var, vt types.Type) (bool, string) {
+		if b, ok := vt.Underlying().(*types.Basic); ok && b.Info()&types.IsString != 0 {
+			return false, ""
+		}
+		if aliasMode == aliasStrict {
+			return true, "source and copy share mutable state"
+		}
+		if fv != nil {
+			if why, ok := oracle.fieldMutable(fv); ok {
+				if _, isPtr := vt.Underlying().(*types.Pointer); !isPtr {
+					return true, "the shared backing store is later modified in place: " + why
+				}
+			}
+		}
+		if why, ok := oracle.deepMutable(vt); ok {
+			return true, "the shared object can later be changed through either document: " + why
+		}
+		return false, ""
+	}
 	nFields := 0
 	for _, cf := range clones {
 		a := analyseClone(p, cf, ms)
@@ -539,8 +571,54 @@ func runCloneRules(r *Run, clones []cloneFn, rulePrefix string, wantAlias bool, 
 					if wantAlias && isPointerLike(st.Val.Type()) && a.srcDerived(st.Val) && !a.srcDerived(root) {
 						if _, isFA := st.Addr.(*ssa.IndexAddr); isFA && !isFreshValue(p, st.Val) {
 							key := fmt.Sprintf("%s:[]%s", fname, typeName(st.Val.Type()))
-							r.Check(rulePrefix+"-alias", key, st.Pos(), false,
-								fmt.Sprintf("%s stores a %s taken from the source into the copy: source and copy share it", fname, st.Val.Type()))
+							bad, why := aliasBad(nil, st.Val.Type())
+							if _, isIface := st.Val.Type().Underlying().(*types.Interface); isIface && aliasMode == aliasMutable {
+								// an element of dynamic type: the kinds the function tests for are handled by
+								// their own cases; only the remaining kinds reach this store
+								bad, why = false, ""
+								handled := map[*types.Named]bool{}
+								if refs := st.Val.Referrers(); refs != nil {
+									for _, u := range *refs {
+										if ta, ok := u.(*ssa.TypeAssert); ok {
+											if n := namedOf(derefType(ta.AssertedType)); n != nil {
+												handled[n] = true
+											}
+										}
+									}
+								}
+								for _, k := range oracle.kinds {
+									if handled[k] {
+										continue
+									}
+									if w, ok := oracle.deepMutable(k); ok {
+										bad, why = true, fmt.Sprintf("elements of kind %s are shared, and %s", typeName(k), w)
+										break
+									}
+								}
+							}
+							r.Check(rulePrefix+"-alias", key, st.Pos(), !bad,
+								fmt.Sprintf("%s stores a %s taken from the source into the copy: %s", fname, st.Val.Type(), why))
+						}
+					}
+					// whole-struct assignment `*dst = *src` / `c := *src`: every pointer-like field is shared
+					if wantAlias && !a.srcDerived(root) {
+						if n := isModStruct(p, st.Val.Type()); n != nil {
+							if _, isPtr := st.Val.Type().Underlying().(*types.Pointer); !isPtr {
+								if ld, ok := st.Val.(*ssa.UnOp); ok && ld.Op == token.MUL && a.srcDerived(ld.X) && !isFreshValue(p, ld.X) {
+									for _, f := range pointerLikeFields(p, n) {
+										if freshStoreToField(p, a, cf.Fn, f) {
+											continue
+										}
+										owner := "?"
+										if o := fieldOwner(p, f); o != nil {
+											owner = o.Obj().Name()
+										}
+										bad, why := aliasBad(f, f.Type())
+										r.Check(rulePrefix+"-alias", fmt.Sprintf("%s:%s.%s", fname, owner, f.Name()), st.Pos(), !bad,
+											fmt.Sprintf("%s copies a %s by plain struct assignment, so its field %s (a %s) is shared between source and copy: %s", fname, typeName(n), f.Name(), f.Type(), why))
+									}
+								}
+							}
 						}
 					}
 					return
@@ -569,10 +647,11 @@ func runCloneRules(r *Run, clones []cloneFn, rulePrefix string, wantAlias bool, 
 							fmt.Sprintf("%s copies field %s from source field %s", fname, fv.Name(), src.Name()))
 					}
 				}
-				if wantAlias && isPointerLike(fv.Type()) && !isFreshValue(p, val) {
+				if wantAlias && isPointerLike(fv.Type()) && (!isFreshValue(p, val) || isAppendOfSource(a, val)) {
 					if _, isStr := fv.Type().Underlying().(*types.Basic); !isStr {
-						r.Check(rulePrefix+"-alias", key, st.Pos(), false,
-							fmt.Sprintf("%s stores the source's %s (a %s) into the copy without copying it: source and copy share mutable state", fname, fv.Name(), fv.Type()))
+						bad, why := aliasBad(fv, fv.Type())
+						r.Check(rulePrefix+"-alias", key, st.Pos(), !bad,
+							fmt.Sprintf("%s stores the source's %s (a %s) into the copy without copying it: %s", fname, fv.Name(), fv.Type(), why))
 					}
 				}
 			})
@@ -647,13 +726,13 @@ func ruleCloneDocument(r *Run) {
 		}
 	}
 	r.Min("template_clone_functions", len(sel), 17)
-	runCloneRules(r, sel, "clone", false, nil)
+	runCloneRules(r, sel, "clone", aliasMutable, nil)
 }
 
 func ruleCloneStyle(r *Run) {
 	clones := discoverClones(r.P, pkgSty)
 	r.Min("style_clone_functions", len(clones), 6)
-	runCloneRules(r, clones, "clone", true, nil)
+	runCloneRules(r, clones, "clone", aliasStrict, nil)
 }
 
 func ruleCopyTable(r *Run) {
@@ -696,7 +775,7 @@ func ruleCopyTable(r *Run) {
 		r.Unresolved("document.Table")
 		return
 	}
-	runCloneRules(r, sel, "copy", true, structsBelow(p, tbl))
+	runCloneRules(r, sel, "copy", aliasStrict, structsBelow(p, tbl))
 }
 
 // structsBelow: module struct types reachable from t through fields (pointers, slices, arrays,
@@ -745,4 +824,40 @@ func ruleClonePure(r *Run) {
 	}
 	r.Failures = append(r.Failures, probe.Failures...)
 	r.Min("clone_functions_checked_for_purity", n, 17)
+}
+
+// ruleCloneAliasFor: the alias obligations of the template engine's document clone, restricted to
+// the struct types whose sharing endangers the property at hand (nil = all).  A rendered document
+// that shares a relationship list, a content-type list or a body element with its template (and
+// so with every sibling rendered from it) is a violation of whichever property speaks about that
+// object: another document's append lands in, or overwrites, the shared slot.
+func ruleCloneAliasFor(owners ...string) func(r *Run) {
+	return func(r *Run) {
+		probe := newRun(r.P, r.Prop, r.Tier)
+		ruleCloneDocument(probe)
+		n := 0
+		for _, k := range probe.order {
+			o := probe.obs[k]
+			if o.Rule != "clone-alias" {
+				continue
+			}
+			if len(owners) > 0 {
+				hit := false
+				for _, ow := range owners {
+					if strings.Contains(o.Key, ":"+ow+".") || strings.Contains(o.Key, ":[]"+ow) {
+						hit = true
+					}
+				}
+				if !hit {
+					continue
+				}
+			}
+			n++
+			r.obs[o.Key] = o
+			r.order = append(r.order, o.Key)
+		}
+		r.Failures = append(r.Failures, probe.Failures...)
+		r.Count("clone_alias_obligations", n)
+		r.Count("template_clone_functions", probe.Analysed["template_clone_functions"])
+	}
 }
